@@ -78,6 +78,25 @@ mod types {
         pub cache: u8,
     }
 
+    /// declarations of the same name in different modules
+    pub mod old {
+        use desert_macro::BinaryCodec;
+        #[derive(Debug, PartialEq, Clone, BinaryCodec)]
+        pub struct Item {
+            pub id: u32,
+            pub name: String,
+        }
+    }
+    pub mod new {
+        use desert_macro::BinaryCodec;
+        #[derive(Debug, PartialEq, Clone, BinaryCodec)]
+        #[evolution(FieldAdded("extra", 7u8), FieldRemoved("old"))]
+        pub struct Item {
+            pub id: u32,
+            pub extra: u8,
+        }
+    }
+
     /// a self-nesting declaration (decoded at depth ~50 by several threads at once)
     #[derive(Debug, PartialEq, Clone, BinaryCodec)]
     #[evolution(FieldAdded("tag", 0u8))]
@@ -265,7 +284,7 @@ fn frame_result(level: u32, n: usize) -> String {
     }
 }
 
-pub const NSPECS: usize = 47;
+pub const NSPECS: usize = 51;
 
 /// performs call spec `i` and renders its result
 pub fn call(i: usize) -> String {
@@ -318,6 +337,11 @@ pub fn call(i: usize) -> String {
             Ok(f) => format!("|ok:{}", f.0.len()),
             Err(e) => format!("|err:{e:?}"),
         },
+        // same-named declarations in two modules
+        47 => enc(&old::Item { id: 5, name: "five".into() }, 0),
+        48 => enc(&new::Item { id: 6, extra: 9 }, 1),
+        49 => round(&old::Item { id: 7, name: "seven".into() }),
+        50 => round(&new::Item { id: 8, extra: 1 }),
         _ => panic!("no call spec {i}"),
     }
 }
